@@ -1,12 +1,12 @@
 """C11 - copies and sibling instances share no mutable state."""
 from contracts.c11_copy import CONTRACTS as COPY_CONTRACTS
-from contracts.c09_containers import AddVariable, SetAttrVariable
+from contracts.c09_containers import AddVariable, SetAttrVariable, ValuesSetter
 from contracts.c16_functions import EvalNamespace  # noqa: F401
 from props.containers_bounded import CopyIndependence
 from verif.spec import PropertySpec
 
 PROPERTY = PropertySpec(
-    id='C11', contracts=list(COPY_CONTRACTS) + [EvalNamespace(), AddVariable(), SetAttrVariable()], bounded=[CopyIndependence()], level='other',
+    id='C11', contracts=list(COPY_CONTRACTS) + [EvalNamespace(), AddVariable(), SetAttrVariable(), ValuesSetter('container'), ValuesSetter('model')], bounded=[CopyIndependence()], level='other',
     explanation='Ownership obligations on VectorContainer.copy and BaseLinker.copy executed symbolically from source: the result is a new instance of '
                 'self.__class__; every field (span, index, attribute list, every series - including the elements of object-dtype series such as traces -, '
                 'every attribute, every submodel recursively) is a deep copy, not shared with the original, and equal; __copy__ is copy and __deepcopy__ calls '
